@@ -609,3 +609,83 @@ Qed.
 
 Lemma styles_equal st1 st2 beh rm fuel td c : enter st1 beh rm fuel td c = enter st2 beh rm fuel td c.
 Proof. destruct st1, st2; reflexivity. Qed.
+
+(* ================================================================================================
+   Section 9: guards that are pure and do not depend on how often they were asked (C05, C08)
+   ============================================================================================== *)
+Section PureGuards.
+  Variable beh : behaviour.
+  Variable nested : tdata -> cfg -> res pyres.
+
+  Definition stateless_pure (cbs : list cbref) : Prop :=
+    forall cb, In cb cbs -> forall n, acts (beh cb n) = [] /\ ret (beh cb n) = ret (beh cb 0).
+
+  (* the value of a guard name provided by several objects: left-to-right `and` *)
+  Fixpoint chain_val (cbs : list cbref) : pyval :=
+    match cbs with
+    | [] => VBool true
+    | [cb] => ret (beh cb 0)
+    | cb :: r => let v := ret (beh cb 0) in if truthy v then chain_val r else v
+    end.
+
+  Definition wrapper_val (w : wrapper) : pyval :=
+    match w_expected w with
+    | Some b => VBool (Bool.eqb (truthy (chain_val (w_cbs w))) b)
+    | None => chain_val (w_cbs w)
+    end.
+
+  Lemma run_cb_pure g x cb c :
+    (forall n, acts (beh cb n) = [] /\ ret (beh cb n) = ret (beh cb 0)) ->
+    exists c', run_cb beh nested g x cb c = Ok c' (ret (beh cb 0)).
+  Proof.
+    intros H. unfold run_cb. destruct (H (count_calls cb (calls c))) as (A & R). rewrite A. simpl.
+    rewrite R. eauto.
+  Qed.
+
+  Lemma run_chain_pure g x : forall cbs c, stateless_pure cbs ->
+    exists c', run_chain beh nested g x cbs c = Ok c' (chain_val cbs).
+  Proof.
+    induction cbs as [|cb r IH]; intros c H; simpl; [eauto|].
+    assert (Hcb : forall n, acts (beh cb n) = [] /\ ret (beh cb n) = ret (beh cb 0)) by (apply H; now left).
+    assert (Hr : stateless_pure r) by (intros cb' Hin; apply H; now right).
+    destruct r as [|cb2 r2]; [apply run_cb_pure; exact Hcb|].
+    destruct (run_cb_pure g x cb c Hcb) as (c1 & E). rewrite E. simpl.
+    destruct (truthy (ret (beh cb 0))); [apply IH; exact Hr|eauto].
+  Qed.
+
+  Lemma run_wrapper_pure g x w c : stateless_pure (w_cbs w) ->
+    exists c', run_wrapper beh nested g x w c = Ok c' (wrapper_val w).
+  Proof.
+    intros H. unfold run_wrapper, wrapper_val. destruct (run_chain_pure g x (w_cbs w) c H) as (c1 & E).
+    rewrite E. simpl. destruct (w_expected w); eauto.
+  Qed.
+
+  Definition all_pure (ws : list wrapper) : Prop := forall w, In w ws -> stateless_pure (w_cbs w).
+
+  (* the sync executor (stop at the first failing entry) ... *)
+  Lemma all_list_pure g x : forall ws c, all_pure ws ->
+    exists c', all_list beh nested g x ws c = Ok c' (forallb (fun w => truthy (wrapper_val w)) ws).
+  Proof.
+    induction ws as [|w r IH]; intros c H; simpl; [eauto|].
+    destruct (run_wrapper_pure g x w c (H w (or_introl eq_refl))) as (c1 & E). rewrite E. simpl.
+    destruct (truthy (wrapper_val w)); simpl; [apply IH; intros w' Hw'; apply H; now right|eauto].
+  Qed.
+
+  (* ... and the async executor (every entry is evaluated) compute the same conjunction *)
+  Lemma all_list_async_pure g x : forall ws c, all_pure ws ->
+    exists c', all_list_async beh nested g x ws c = Ok c' (forallb (fun w => truthy (wrapper_val w)) ws).
+  Proof.
+    induction ws as [|w r IH]; intros c H; simpl; [eauto|].
+    destruct (run_wrapper_pure g x w c (H w (or_introl eq_refl))) as (c1 & E). rewrite E. simpl.
+    destruct (IH c1 (fun w' Hw' => H w' (or_intror Hw'))) as (c2 & E2). rewrite E2. simpl. eauto.
+  Qed.
+
+  Theorem sync_and_async_guards_agree g x ws c :
+    all_pure ws ->
+    exists c1 c2 b, all_list beh nested g x ws c = Ok c1 b /\ all_list_async beh nested g x ws c = Ok c2 b /\
+                    b = forallb (fun w => truthy (wrapper_val w)) ws.
+  Proof.
+    intros H. destruct (all_list_pure g x ws c H) as (c1 & E1). destruct (all_list_async_pure g x ws c H) as (c2 & E2).
+    exists c1, c2, (forallb (fun w => truthy (wrapper_val w)) ws). auto.
+  Qed.
+End PureGuards.
